@@ -190,16 +190,18 @@ def standaloneRecord (cs : List Ctrl) (res now b : Nat) : List Ctrl :=
     | .own _ _ => if c.rule.res = res then { c with own := (addAt c.own now b).1 } else c
     | _ => c
 
+/-- several recordings on the node of `r` at the same instant -/
+def touches (ns : Nodes) (r now : Nat) : List Nat → Nodes
+  | [] => ns
+  | x :: xs => touches (touch ns r now x) r now xs
+
 /-- the statistic slots, and `Exit` at the same instant for an admitted entry:
     pass:  node: concurrency sample (0), pass += b; standalone arrays += b; exit: rt (0), complete (0)
     block: node: block count (0 to the pass counter) -/
 def statPhase (s : St) (res now b : Nat) (d : Option Nat) : St :=
   match d with
-  | none =>
-    let ns := touch (touch s.nodes res now 0) res now b
-    let cs := standaloneRecord s.ctrls res now b
-    { nodes := touch (touch ns res now 0) res now 0, ctrls := cs }
-  | some _ => { s with nodes := touch s.nodes res now 0 }
+  | none => { nodes := touches s.nodes res now [0, b, 0, 0], ctrls := standaloneRecord s.ctrls res now b }
+  | some _ => { s with nodes := touches s.nodes res now [0] }
 
 /-- `api.Entry(res, WithBatchCount(b))` (+ immediate `Exit`) at time `now`; `none` = admitted, `some i` = blocked by rule `i` -/
 def entry (s : St) (res now b : Nat) : St × Option Nat :=
@@ -301,13 +303,8 @@ def runSched (s : St) (now : Nat) (ths : List Thread) : List Nat → St × List 
   | i :: r => let (s1, t1) := stepThread s now ths i; runSched s1 now t1 r
 
 /-- reference small step: the history grows when an admitted thread *records* -/
-structure RThread where
-  res : Nat
-  b : Nat
-  st : Option (Option Nat × Bool) := none
-
 def refStepThread (srcOf : RuleInfo → Nat) (cs : List RuleInfo) (H : List Arrival) (now : Nat)
-    (ths : List RThread) (i : Nat) : List Arrival × List RThread :=
+    (ths : List Thread) (i : Nat) : List Arrival × List Thread :=
   match ths[i]? with
   | none => (H, ths)
   | some th =>
@@ -318,7 +315,7 @@ def refStepThread (srcOf : RuleInfo → Nat) (cs : List RuleInfo) (H : List Arri
     | some (_, true) => (H, ths)
 
 def refRunSched (srcOf : RuleInfo → Nat) (cs : List RuleInfo) (H : List Arrival) (now : Nat)
-    (ths : List RThread) : List Nat → List Arrival × List RThread
+    (ths : List Thread) : List Nat → List Arrival × List Thread
   | [] => (H, ths)
   | i :: r => let (H1, t1) := refStepThread srcOf cs H now ths i; refRunSched srcOf cs H1 now t1 r
 
